@@ -48,7 +48,18 @@ TRUSTED = [
     "requests rpyc issues by itself (HANDLE_DEL, GETROOT, GETATTR) are events like any other, with their outcome "
     "class read off their response frame",
     "GIL atomicity of `next(itertools.count())` and `dict.pop` (sequence numbers and the waiter table under "
-    "threads are C12/C13's subject; here one thread runs at a time)",
+    "threads are C12/C13's subject; here one thread runs at a time, except in the nine gated 'second thread in the "
+    "window of _async_request' runs)",
+    "one fact about the code is measured by harness/gen_proto.py on the live class and enters the model as a generated "
+    "constant with a named proof obligation (decode_guarded: `_dispatch` delivers a response it cannot decode to its "
+    "waiter as an error); the outcome classes of `_dispatch_request` are labels whose meaning (`trySuiteRaises`, "
+    "`replySendRaises`, `excPayloadRaises`, `plainPayloadRaises := false`) is tied to the code by the correspondence "
+    "alone, not derived from a model of box/dump/vinegar",
+    "not modelled, not exercised: a user callback added with AsyncResult.add_callback that raises (the exception leaves "
+    "`_dispatch` after the response has been delivered); a configured `logger` whose debug() raises inside "
+    "`_dispatch_request`'s except suite (no response, serving side ends: probed, user object misbehaving); a result "
+    "object whose attribute lookup raises a non-Exception BaseException while it is boxed in the `else:` branch (only "
+    "`Exception` is caught there: no response, probed)",
 ]
 ASSUMPTIONS = [
     "the connection stays open during the stream (how it ends is C11); timeouts of waiters are C15",
@@ -57,15 +68,25 @@ ASSUMPTIONS = [
     "with propagate_SystemExit_locally / propagate_KeyboardInterrupt_locally on, that exception is re-raised locally by "
     "design instead of being answered (outcome raiseLocal in the model; exercised, compared up to that point, and not "
     "counted as a violation); every other BaseException is answered",
-    "a handler that never returns gets no response (the statement speaks of requests that are executed)",
+    "a handler that never returns gets no response (the statement speaks of requests that are executed): 'exactly one' "
+    "is the counting invariant (a request sent is in the peer's inbox, being handled, or answered once) plus: finishing "
+    "a handler always answers, and at quiescence everything has been answered and delivered (quiescent_all_answered); "
+    "'remains usable' is: no side has left its serve loop and issue / finish / deliver are enabled (stays_usable) — "
+    "application-level circular waits are possible in the machine as in rpyc",
+    "side B starts no top-level requests (only nested ones from its handlers); duplicate REQUEST sequence numbers from a "
+    "hostile peer are not injected (only responses are)",
 ]
 EXPLANATION = ("Theorems over ALL event sequences of the ledger machine (any mix of sync/async/nested requests, any "
                "handler outcome, any number outstanding, hand-built responses): sequence numbers strictly increase; each "
                "request is executed at most once and answered at most once with its own number; a response goes to the "
                "waiter registered under its number and to nobody else, unmatched ones are dropped; the counting invariant "
                "[in peer's inbox] + [being handled] + [answered] = 1 holds for every request sent and nobody dies "
-               "(exactly_one = the full statement, all six outcome classes); at quiescence every request has been "
-               "answered and delivered exactly once; a failed send leaves no waiter behind.")
+               "(exactly_one = the full statement: every outcome class incl. BaseExceptions, unencodable results, "
+               "unserializable exceptions; only the configured local propagation of SystemExit/KeyboardInterrupt is "
+               "excluded); a response the receiver cannot decode still reaches its waiter as an error "
+               "(undecodable_response_is_delivered, obligation decode_guarded; unguarded_decode_loses_response is the "
+               "counterexample for the code before the repair); at quiescence every request has been answered and "
+               "delivered exactly once; a failed send leaves no waiter behind.")
 
 LIMIT = sys.get_int_max_str_digits() or 4300
 BIG = 10 ** (LIMIT + 10)
